@@ -436,19 +436,28 @@ Definition handle_join_h (g : grow_policy) (cfg : config) (w : world) (e : event
   match e_src e, e_params e with
   | Some src, chan_name :: rest =>
       let w1 := create_channel_h w chan_name in
+      (* a user already tracked (e.g. from NAMES) takes ident and host from the JOIN prefix
+         when either is non-empty (written in place); a new one is created from the prefix *)
+      let existed := match lookup_user_h w1 (s_name src) with Some _ => true | None => false end in
       let w2 := create_user_h w1 src in
       match lookup_channel_h w2 chan_name, lookup_user_h w2 (s_name src) with
       | Some cid, Some uid =>
-          u <- get_user (w_heap w2) uid ;;
-          c <- get_chan (w_heap w2) cid ;;
-          h3 <- channel_add_user_h g (w_heap w2) cid (hu_nick u) ;;
+          u0 <- get_user (w_heap w2) uid ;;
+          let u := if existed && (str_nonempty (s_ident src) || str_nonempty (s_host src))
+                   then hu_set_ident_host u0 (s_ident src) (s_host src) else u0 in
+          let h2 := hset (w_heap w2) uid (CUser u) in
+          c <- get_chan h2 cid ;;
+          h3 <- channel_add_user_h g h2 cid (hu_nick u) ;;
           h4 <- user_add_channel_h g h3 uid (hc_name c) ;;
           u4 <- get_user h4 uid ;;
+          (* account-tag: handleTags ran before the user existed *)
+          let ut := match e_account_tag e with Some a => hu_set_account u4 a | None => u4 end in
           let u5 := match rest with
                     | acct :: rest2 =>
-                        let ua := if streqb acct [42] then u4 else hu_set_account u4 acct in
+                        (* extended-join: "*" means not logged in *)
+                        let ua := if streqb acct [42] then hu_set_account ut [] else hu_set_account ut acct in
                         match rest2 with name :: _ => hu_set_name ua name | [] => ua end
-                    | [] => u4
+                    | [] => ut
                     end in
           let h5 := hset h4 uid (CUser u5) in
           let s5 := w_st w2 in
